@@ -27,6 +27,18 @@ def ok_kind5(units):
     return not any(b in s for b in BAD5)
 
 
+def ok_kind10(units):
+    """kind 10 prints {var:v<units>} inside a loop over [{"name":1}]: it must not resolve and must not form other tags.
+    Either a plain tail (no braces / brackets) or one bracketed index "[t]" with t free of braces / brackets and not the
+    member name"""
+    if not units:
+        return True
+    if units[0] == 91 and units[-1] == 93 and len(units) >= 2:
+        t = units[1:-1]
+        return (not t or ok_kind5(t)) and t != [110, 97, 109, 101] and t != [107]
+    return ok_kind5(units)
+
+
 def gen_cases(rng, tier, boost=1):
     cases = []
     dist = {"exhaustive": 0, "random": 0, "kinds": 0, "off": 0}
@@ -42,7 +54,7 @@ def gen_cases(rng, tier, boost=1):
     nrand = (6000 if tier == "quick" else 120000) * boost
     for _ in range(nrand):
         w = rng.randrange(4)
-        kind = rng.choice([0, 0, 1, 1, 2, 3, 4, 4, 5, 6, 7, 8, 9])
+        kind = rng.choice([0, 0, 1, 1, 2, 3, 4, 4, 5, 6, 7, 8, 9, 10, 10])
         n = rng.choice([0, 1, 2, 3, 5, 8, 13, 21, 40, 64])
         maxu = [255, 65535, 0x10FFFF, 0x10FFFF][w]
         units = []
@@ -71,6 +83,12 @@ def gen_cases(rng, tier, boost=1):
             units = [u for u in units if u not in (123, 125, 91, 93)]
             if not ok_kind5(units):
                 kind = 1
+        if kind == 10:
+            units = [u for u in units if u not in (123, 125, 91, 93)][:60]
+            if rng.random() < 0.5:
+                units = [91] + units + [93]          # {var:v[...]}: an index that names no member
+            if not ok_kind10(units):
+                kind = 1
         cases.append("2 %d %d %s" % (w, kind, fmt_list(units)))
         dist["random"] += 1
     # 3. every kind on the short look-alike strings (all widths)
@@ -79,8 +97,10 @@ def gen_cases(rng, tier, boost=1):
         pool += list(itertools.product([38, 97, 109, 112, 59, 60, 123, 48, 125], repeat=n))
     rng.shuffle(pool)
     for tup in pool[: (400 if tier == "quick" else 820) * boost]:
-        for kind in (1, 2, 3, 4, 5, 6, 7, 8, 9):
+        for kind in (1, 2, 3, 4, 5, 6, 7, 8, 9, 10):
             if kind == 5 and not ok_kind5(list(tup)):
+                continue
+            if kind == 10 and not ok_kind10(list(tup)):
                 continue
             cases.append("2 %d %d %s" % (rng.randrange(4), kind, fmt_list(tup)))
             dist["kinds"] += 1
@@ -127,6 +147,8 @@ def minimise(exe, case, want_oracle_fail):
 
     def fails(u):
         if tk[2] == "5" and not ok_kind5(u):
+            return False
+        if tk[2] == "10" and not ok_kind10(u):
             return False
         c = " ".join(tk[:3] + [fmt_list(u)])
         r = vlib.differential("esc", exe, [c])
